@@ -78,6 +78,9 @@ def wl_bloom(ctx, rng, case):
         feed_bloom(sA, A)
         feed_bloom(sB, B)
         feed_bloom(sAB, A + B)
+        if m > 8 * 30000:
+            bl.dense_fill(rng, [[sA, sAB], [sB, sAB]], m, k)  # large arrays: (nearly) every byte carries a bit in some operand
+            ctx.count("large_pairs_filled_densely")
         if rng.random() < 0.2:
             sA = reloaded(sA)
         if rng.random() < 0.2:
